@@ -55,7 +55,19 @@ def canonicalise(index):
     threaded through the setters and returned, ...), so each is located by that role and renamed - in this run's in-memory syntax
     trees only - to the name the rules use.  A maintainer's rename of such a local therefore changes nothing for the rules."""
     fn = index.func(RUN, "ScenarioRunner.set_depending_on_option")
-    opt_param = [a.arg for a in fn.args.args if a.arg != "self"][0]
+    alt = index.func(RUN, "ScenarioRunner.alter_scenario_if_known_to_fail")
+    # the options parameter of both routines is the parameter they deep-copy (wherever it stands, whatever it is called)
+    for f_ in (fn, alt):
+        ps_ = [a.arg for a in f_.args.args if a.arg != "self"]
+        copied = [p_ for p_ in ps_ if any(isinstance(c_, ast.Call) and dotted(c_.func) == "copy.deepcopy" and c_.args and norm_src(c_.args[0]) == p_
+                                          for c_ in ast.walk(f_))]
+        if len(copied) == 1 and copied[0] != "scenario_option" and "scenario_option" not in ps_:
+            _rename(f_, copied[0], "scenario_option")
+            for a_ in f_.args.args:
+                if a_.arg == copied[0]:
+                    a_.arg = "scenario_option"
+    ps_ = [a.arg for a in fn.args.args if a.arg != "self"]
+    opt_param = "scenario_option" if "scenario_option" in ps_ else ps_[0]
     loader = _assigned_from(fn, lambda v: isinstance(v, ast.Call) and dotted(v.func) == "Scenarios")
     copyv = _assigned_from(fn, lambda v: isinstance(v, ast.Call) and ((isinstance(v.func, ast.Attribute) and v.func.attr == "alter_scenario_if_known_to_fail")
                                                                          or (dotted(v.func) == "copy.deepcopy" and v.args and norm_src(v.args[0]) == opt_param)))
@@ -76,7 +88,6 @@ def canonicalise(index):
     mult = _assigned_from(fn, lambda v: isinstance(v, ast.Call) and dotted(v.func) == "float" and v.args and "MULTIPLIER" in norm_src(v.args[0]))
     if len(mult) == 1:
         _rename(fn, mult[0], "multiplier")
-    alt = index.func(RUN, "ScenarioRunner.alter_scenario_if_known_to_fail")
     tbl = _assigned_from(alt, lambda v: isinstance(v, ast.List) and v.elts and all(isinstance(e, ast.Dict) for e in v.elts))
     if len(tbl) == 1:
         _rename(alt, tbl[0], "failing_scenarios")
@@ -136,7 +147,9 @@ def data_setters(index, rep):
             attrs.update({"IS_GLOBAL_ANALYSIS": False, "scenario_description": ""})
             obj = Obj(cls, attrs, "self")
             cfp = PDict({})
-            it.call_function(fn, [cfp, Path(("row",))], {}, obj)
+            from .core import bind_named
+            a_, k_ = bind_named(fn, [("constants_for_params", cfp), ("country_data", Path(("row",)))])
+            it.call_function(fn, a_, k_, obj)
             return cfp
 
         try:
@@ -964,14 +977,37 @@ def nomut(index, rep):
     srcs = []
     for st in walk_no_nested(fn):
         if isinstance(st, ast.Assign) and isinstance(st.targets[0], ast.Name) and st.targets[0].id == "scenario_option_copy":
-            srcs.append(norm_src(st.value))
-    ok = bool(srcs) and all(s.startswith("copy.deepcopy(scenario_option)") or
-                            s.startswith("self.alter_scenario_if_known_to_fail(scenario_option,") for s in srcs)
+            srcs.append(st.value)
+    from .core import args_by_ref_names as _abn13
+    alt_fn = index.func(RUN, "ScenarioRunner.alter_scenario_if_known_to_fail")
+
+    def deep_copy_of_options(v):
+        if isinstance(v, ast.Call) and dotted(v.func) == "copy.deepcopy" and len(v.args) == 1 and norm_src(v.args[0]) == "scenario_option":
+            return True
+        if isinstance(v, ast.Call) and dotted(v.func) == "self.alter_scenario_if_known_to_fail":
+            got = _abn13(v, alt_fn, ["scenario_option"])[0]
+            return got is not None and norm_src(got) == "scenario_option"
+        return False
+
+    ok = bool(srcs) and all(deep_copy_of_options(v_) for v_ in srcs)
+    srcs = [norm_src(v_) for v_ in srcs]
     rep.check(ok, rule, "set_depending_on_option:scenario_option_copy",
               f"scenario_option_copy is not a deep copy of the caller's options on every path ({srcs})", loc=loc(RUN, fn))
     # reads after the copy go to the copy, never to the original (otherwise an alteration would be ignored)
     # (by statement order, not line distance: every top-level statement AFTER the one that makes the copy)
-    opt_param = [a.arg for a in fn.args.args if a.arg != "self"][0]
+    alt = index.func(RUN, "ScenarioRunner.alter_scenario_if_known_to_fail")
+    # the options parameter of both routines is the parameter they deep-copy (wherever it stands, whatever it is called)
+    for f_ in (fn, alt):
+        ps_ = [a.arg for a in f_.args.args if a.arg != "self"]
+        copied = [p_ for p_ in ps_ if any(isinstance(c_, ast.Call) and dotted(c_.func) == "copy.deepcopy" and c_.args and norm_src(c_.args[0]) == p_
+                                          for c_ in ast.walk(f_))]
+        if len(copied) == 1 and copied[0] != "scenario_option" and "scenario_option" not in ps_:
+            _rename(f_, copied[0], "scenario_option")
+            for a_ in f_.args.args:
+                if a_.arg == copied[0]:
+                    a_.arg = "scenario_option"
+    ps_ = [a.arg for a in fn.args.args if a.arg != "self"]
+    opt_param = "scenario_option" if "scenario_option" in ps_ else ps_[0]
     top_i = None
     for i_, st in enumerate(fn.body):
         if any(isinstance(x, ast.Assign) and isinstance(x.targets[0], ast.Name) and x.targets[0].id == "scenario_option_copy" for x in ast.walk(st)):
